@@ -384,9 +384,9 @@ def crash_signature(rep):
     if rep.get("timeout"):
         return "timeout"
     kind = "crash"
-    m = re.search(r"AddressSanitizer: ([a-z\-]+(?: [a-z\-]+)?)", text)
+    m = re.search(r"AddressSanitizer: (attempting double-free|[a-zA-Z\-]+)", text)
     if m:
-        kind = m.group(1).strip().replace(" ", "-")
+        kind = m.group(1).replace("attempting ", "")
     elif "misaligned address" in text:
         kind = "misaligned-access"
     elif "runtime error" in text:
@@ -399,6 +399,7 @@ def crash_signature(rep):
     if not where:
         m = re.search(r"([\w\.]+\.(?:c|cpp)):\d+", text)
         where = m.group(1) if m else "?"
+    where = re.sub(r"<.*", "", where)  # template arguments (may contain blanks) are not part of the call site
     return "%s:%s" % (kind, where)
 
 
